@@ -93,6 +93,8 @@ func c03Run(f []string) string {
 		return c03AnalyzeRun(f)
 	case "analyze-spec":
 		return c03AnalyzeSpecRun(f)
+	case "reducec":
+		return c03ReduceCRun(f)
 	case "tbl":
 		return c03TblRun(f)
 	case "sbv":
@@ -279,6 +281,13 @@ func c03Gen(r *Rand, tier string) []string {
 	for i := 0; i < nTbl; i++ {
 		out = append(out, c03TblCase(r))
 	}
+	nRc := 250
+	if tier == "thorough" {
+		nRc = 6000
+	}
+	for i := 0; i < nRc; i++ {
+		out = append(out, c03ReduceCCase(r))
+	}
 	nSbv := 400
 	if tier == "thorough" {
 		nSbv = 8000
@@ -345,6 +354,18 @@ func c03Stats(cases []string) map[string]int {
 			st["analyze.samples"] += len(UnHexListS(f[4]))
 		case "analyze-spec":
 			st["op.analyzeSpec"]++
+		case "reducec":
+			st["op.reducec"]++
+			tune := strings.Split(f[1], ",")
+			if tune[0] != "1" {
+				st["reducec.workers>1"]++
+			}
+			if tune[1] != "1" {
+				st["reducec.readers>1"]++
+			}
+			if fs := c03DecRows(f[8]); len(fs) > 1 {
+				st["reducec.files>1"]++
+			}
 		case "tbl":
 			c03TblStats(f, st)
 		case "sbv":
